@@ -15,6 +15,8 @@ import (
 	"os"
 	"path/filepath"
 	"reflect"
+	"runtime/debug"
+	"sync/atomic"
 	"testing"
 	"time"
 
@@ -123,7 +125,16 @@ type verdict struct {
 
 // runDecodeCase executes one case with panic recovery and a watchdog, and
 // returns a verdict when the property is violated.
+var c06cases atomic.Int64
+
 func runDecodeCase(c decodeCase) *verdict {
+	// The memory oracle is the process's address-space limit. Garbage of earlier cases (a hostile frame
+	// may legitimately make the library allocate up to its own cap of 128 MiB, twice) must not count
+	// against a later one: on a loaded machine the collector can fall behind the allocation rate (the
+	// memory limit of the runtime is a soft one), so it is run by hand every so often.
+	if c06cases.Add(1)%128 == 0 {
+		debug.FreeOSMemory()
+	}
 	if currentFile != "" {
 		_ = os.WriteFile(currentFile, c.marshal(), 0o644)
 	}
